@@ -150,7 +150,16 @@ fn read_decoded(src: Src, expect_enc: &'static Encoding, feff_ok: bool) -> Resul
         for _ in 0..limit {
             let ev = next(&mut r).map_err(|e| format!("reader error: {}", e))?;
             let dec = r.decoder();
-            let d = |b: &[u8]| dec.decode(b).map(|c| c.into_owned()).map_err(|e| format!("payload {:?} does not decode: {}", show(b), e));
+            // decode() and decode_into() must agree on every payload
+            let d = |b: &[u8]| -> Result<String, String> {
+                let one = dec.decode(b).map(|c| c.into_owned()).map_err(|e| format!("payload {:?} does not decode: {}", show(&b[..b.len().min(80)]), e))?;
+                let mut two = String::from("~");
+                dec.decode_into(b, &mut two).map_err(|e| format!("decode_into fails with {} for a payload of {} bytes that decode() accepts ({:?}...)", e, b.len(), show(&b[..b.len().min(40)])))?;
+                if two.strip_prefix('~') != Some(one.as_str()) {
+                    return Err(format!("decode_into appended {:?} but decode() gives {:?}", &two[1..], one));
+                }
+                Ok(one)
+            };
             match &ev {
                 Event::Eof => return Ok(out),
                 Event::Decl(e) => {
@@ -527,8 +536,10 @@ fn gen_doc(e: &'static Encoding, r: &mut Rng) -> Doc {
         let (b, _, bad) = e.encode("\u{FEFF}");
         !bad && !b.iter().any(|b| matches!(b, b'<' | b'>' | b'&' | b'"' | b'\'' | b'?' | b'-' | b' ' | b'\t' | b'\r' | b'\n' | b'=' | b'/' | b']'))
     };
+    // now and then payloads of 400 to 2400 bytes (internal piecewise decoding, buffer growth)
+    let long = r.below(25) == 0;
     let mut piece = |r: &mut Rng, max: usize, avoid5d: bool| -> String {
-        let n = if max == 5 { 1 + r.below(5) } else { r.below(max) };
+        let n = if long && max >= 4 { 400 + r.below(800) } else if max == 5 { 1 + r.below(5) } else { r.below(max) };
         let mut s = draw_chars(e, r, n, avoid5d);
         if r.bool() {
             s.insert(0, 'x');
